@@ -13,6 +13,7 @@ GROUP_FUNCS = {
     'wrapmerge': 'the result shape and fill slices of NiftiWrapper.from_sequence',
     'stack': 'the count checks of get_shape, the thorough check of _chk_order', 'stackadd': 'add_dcm, _chk_congruent, _chk_close, _chk_equal',
     'phoenix': '_parse_phoenix_line',
+    'group': 'the placement step of parse_and_group',
     'filter': 'make_key_regex_filter with its inner function',
     'orient': 'the voxel_order checks of reorder_voxels',
     'header': 'the repetition-time, dim_info and slice-timing blocks of to_nifti', 'data': 'the trimming block and file index expressions of get_data'}
